@@ -197,6 +197,7 @@ def iet_body(cfg, ts):
 
 
 for shape in SHAPES:
+  if shape != "tri2":        # four symbolic run starts over three pairs do not exhaust in 20 min for the ratio measures
     REG.add("stats_%s" % shape, T_stat, stat_body, cfg=dict(shape=shape), tier="quick" if shape in ("two", "two_n2") else "thorough",
             timeout=1200, tags=["overlap"], twins=1,
             bounds="DynGraph on nodes 0,1,2 with interactions %s (u, v, run lengths-1), unbounded symbolic run starts (all relative "
